@@ -7,8 +7,8 @@ package security
 // A scheme's scopes are satisfied exactly when every required scope is among the ones presented.
 //@ func validateScopes
 //@   params expected actual
-//@   locals missing
 //@   property C06
+//@   locals missing:[]string r:string found:bool s:string
 //@   ensures* accept: (forall j int :: 0 <= j && j < len(expected) ==> (exists k int :: 0 <= k && k < len(actual) && actual[k] == expected[j])) ==> result == nil
 //@   ensures* reject: result == nil ==> (forall j int :: 0 <= j && j < len(expected) ==> (exists k int :: 0 <= k && k < len(actual) && actual[k] == expected[j]))
 //@   loop 1 invariant bounds: 0 - 1 <= rangeindex && len(missing) >= 0 && (missing.arr == 0 || fresh(missing))
